@@ -276,6 +276,30 @@ func c13Run(ctx *core.Ctx) {
 			}
 		}
 	}
+	// rows mixing long unquoted cells (64+ bytes: long strings, floats whose positional form has hundreds
+	// of digits) with quoted cells that contain line feeds, delimiters and quotes, in every column order
+	{
+		long1, long2 := strings.Repeat("x", 70), strings.Repeat("yz", 45)
+		cols := []model.Col{
+			{Name: "a", Kind: model.String, Cells: []model.Cell{model.S(long1), model.S("s"), model.S(long2)}},
+			{Name: "b", Kind: model.String, Cells: []model.Cell{model.S("q\nr"), model.S("u,\"v\"\n"), model.S("\n")}},
+			{Name: "c", Kind: model.String, Cells: []model.Cell{model.S(long2), model.S(long1), model.S("t")}},
+			{Name: "d", Kind: model.Float, Cells: []model.Cell{model.F(1e80), model.F(math.MaxFloat64), model.F(5e-324)}},
+			{Name: "e", Kind: model.Float, Cells: []model.Cell{model.F(-1e300), model.F(0.5), model.F(1e-300)}},
+		}
+		forEachPerm(len(cols), func(p []int) {
+			for _, k := range []int{3, 4, 5} {
+				if !ctx.Mine() {
+					continue
+				}
+				f := model.Frame{N: 3}
+				for _, ci := range p[:k] {
+					f.Cols = append(f.Cols, cols[ci])
+				}
+				exec(rtCase{Frame: f, Shape: int(ctx.Index() % int64(model.NShapes)), Header: true}, "long-and-quoted-cells")
+			}
+		})
+	}
 	// family B: three columns of every type combination, reduced alphabets, every column permutation for the writer
 	perms := [][]int{{0, 1, 2}, {0, 2, 1}, {1, 0, 2}, {1, 2, 0}, {2, 0, 1}, {2, 1, 0}}
 	names := []string{"a", "b", "c"}
@@ -319,7 +343,7 @@ func init() {
 		ID:    "C13",
 		Level: "model_checking",
 		Rule: "case = (frame, index shape, Header option, Columns order, EmptyNull). Family A: one column of each type (optionally next to an id column), ALL cell sequences of length <= 3 over the per-type alphabets " +
-			"(strings: null, \"\", blanks, quotes, delimiter, LF, invalid UTF-8, \\., \"1\", \"true\"; floats: +-0, subnormal, max, 1e21, 0.1, 2^63, -9.5e18, 2^53+2, +-Inf, NaN; ints: extremes; enums with declared order) x 7 shapes x Header x EmptyNull; " +
+			"(strings: null, \"\", blanks, quotes, delimiter, LF, invalid UTF-8, \\., \"1\", \"true\"; floats: +-0, subnormal, max, 1e21, 0.1, 2^63, -9.5e18, 2^53+2, +-Inf, NaN; ints: extremes; enums with declared order) x 8 shapes x Header x EmptyNull; " +
 			"size sweep: every row count 1..500 (output across the writer's 4096-byte buffer at every alignment); family B: every type combination of three columns over reduced alphabets x every Columns permutation x Header x EmptyNull. Oracles: the written bytes parsed by the reference RFC 4180 parser give header + one record per row with the expected cell texts; ReadCSV(bytes, Types/EnumValues/Headers) equals the frame (floats bit-identical, NaN preserved, null -> \"\" or \"\" -> null). All cases are non-trivial; distinct by content.",
 		Assumptions: []string{
 			"strings contain no CR (outside the property)",
